@@ -438,6 +438,15 @@ impl<T: Float + std::ops::AddAssign> Categorical<T> {
             rng: SmallRng::from_os_rng(),
         }
     }
+
+    /// Verification only: like [`Categorical::new`] but with a caller-supplied generator, so that
+    /// the uniform variate consumed by `sample` can be chosen.
+    #[cfg(mini_mcmc_verif)]
+    pub fn with_rng(probs: Vec<T>, rng: SmallRng) -> Self {
+        let mut c = Self::new(probs);
+        c.rng = rng;
+        c
+    }
 }
 
 impl<T: Float + std::ops::AddAssign> Discrete<T> for Categorical<T>
